@@ -10,6 +10,25 @@ COMMON_TRUSTED = [
 NOT_APPLICABLE = {}
 
 PROPS = {
+    "C12": dict(
+        level_text="Proof: the more/next handshake between Solutions.Next/Scan/Err/Close (solutions.go) and the search goroutine of QueryContext (interpreter.go) is modelled in Lean as a small-step transition system (consumer pc, producer pc, the two channels with Go's buffered/rendezvous/close semantics, the query abstracted as an arbitrary outcome stream Nat -> answer|exhausted|error). For ALL outcome streams (finite, erroring, infinite), ALL call sequences and ALL schedules (every enabled goroutine step is allowed) the kernel checks: an inductive invariant with five boundary shapes (C12_boundary_invariant, C12_no_panic), deadlock freedom and a step bound of 8 per call under every schedule (C12_no_block, C12_no_block_bounded, C12_maximal_run_finished), refinement of the sequential iterator specification Spec/Iter (C12_refines_iter, C12_refines_iter_finished, C12_schedule_independent), that after Close no search step happens and the producer exits within 2 of its own steps (C12_close_stops), that the producer never searches ahead (C12_no_speculation), and independence of two Solutions (C12_interleave). The protocol of the pinned tree is kept as a variant and shown to deadlock (C12_no_block_pinned_witness = D14, repaired in the repo). The model is tied to the Go code by c12.seq (exhaustive call sequences up to length 5, thorough 7, x 8 query shapes + random longer ones, each call under a 2 s watchdog on the real Solutions; return values, tick counter = goals run, goroutine count) and c12.inter (two open Solutions of one interpreter, interleaved).",
+        level_note="Trusted: Lean kernel; the hand-written transition system mirrors the Go code and Go's channel semantics (checked by the differential streams, not proved); one 'searching' step stands for the whole search for the next outcome, which is assumed to terminate (a diverging goal such as 'repeat, fail' makes Next diverge, that is not a protocol block); context cancellation is C13; scheduler fairness/real time are observed by the watchdog only.",
+        technique="Lean 4 inductive invariant + progress/measure proof over a two-goroutine transition system (all schedules) + refinement of a sequential specification; exhaustive small-scope differential runs with watchdog on the real code",
+        lean_module="PrologVerif.Properties.C12",
+        ns="PrologVerif.C12",
+        streams=[dict(name="c12.seq", quick=3000, thorough=20000, j=1),
+                 dict(name="c12.inter", quick=2000, thorough=10000, j=1)],
+        rule="c12.seq: EVERY call sequence of length <= 5 (thorough: <= 7) over {Next,Scan,Err,Close} x queries {0..3 answers, error after 0..2 answers, infinite}, plus random sequences of length 6..14 on queries with up to 6 answers / error after up to 4 / infinite; c12.inter: every interleaving of total length <= 3 (thorough: <= 4) on two Solutions x 16 query pairs, plus random ones of length 4..12. One PRNG (VERIF_SEED). Non-trivial (c12.seq) = at least one call is made after a Next returned false or after a successful Close (the states where the pinned code blocks); (c12.inter) = the consumer switches between the two Solutions at least twice. distinct = distinct case text",
+        trusted=[
+            "modelled (hand-written, correspondence-checked): interpreter.go QueryContext (goroutine, channels), solutions.go Next/Close/Err and the env/closed/done fields; Scan is modelled as reading the current answer",
+            "assumed: Go channel semantics (buffered send/receive, rendezvous, close) as in the Go memory model; each search for the next outcome terminates; one consumer goroutine",
+            "observed only: wall-clock promptness (2 s watchdog per call), runtime.NumGoroutine, the tick side-effect counter",
+        ],
+        modelled={"hand_modelled": ["Interpreter.QueryContext (goroutine body)", "Solutions.Next", "Solutions.Close", "Solutions.Err", "Solutions.Scan (as read of env)"],
+                  "regenerated": [], "observed_only": ["engine.Call/Force (the search)", "goroutine exit", "convertAssign (see C15)"]},
+        assumptions=["each search for the next outcome terminates (divergence of the goal itself is not a protocol block)",
+                     "all calls on one Solutions are made from one goroutine", "the context is never cancelled (C13)"],
+    ),
     "C18": dict(
         level_text="Proof: the operator-table state machine (Op/validateOp/CurrentOp and the operators methods) is modelled in Lean; for ALL histories of op/3 calls with arbitrary argument terms the ISO invariant (C18_inv), atomicity of failed updates (C18_atomic), the exact effect of successful updates (C18_update_exact: latest wins, 0 removes, other classes kept) and exactness of current_op/3 (C18_current_op_exact) are kernel-checked theorems, the default table being regenerated from bootstrap.pl. The model is tied to the Go code by the c18.hist correspondence stream (impl vs model, plus an independent executable ISO specification as oracle, plus reader/writer probes).",
         level_note="Trusted: Lean kernel; the hand-written model of Op/validateOp/CurrentOp (checked by differential runs, not proved); harness canonicalisation; reader/writer use of the table is only probed, not modelled. Pattern variables of current_op/3 assumed pairwise distinct.",
